@@ -111,6 +111,7 @@ func (l *URIParamsLst) More() bool {
 // Init initializes the parsed paramters list with a parameter place-holder
 // array.
 func (l *URIParamsLst) Init(pbuf []URIParam) {
+	l.Reset() // an initialized list is an empty list
 	l.Params = pbuf
 }
 
